@@ -231,6 +231,8 @@ PROPS["C11"] = {
 PROPS["C09"]["components"].append(Sched("trans", 3000, 150000, exhaustive_limit=3000, conformance="tr-trans", pb1=((40, 1500), (400, 40000))))
 PROPS["C11"]["components"].append(Sched("trans", 1500, 60000, label="sched-trans-override", only="C11:", pb1=((40, 1500), (400, 40000))))
 PROPS["C08"]["components"].append(Sched("trans", 1500, 60000, label="sched-trans-override", only="C08:", pb1=((40, 1500), (400, 40000))))
+PROPS["C08"]["components"].append(Sched("gauge", 1500, 60000, label="sched-gauge-killswitch", conformance="tr-exec-gauge", only="C08:", pb1=((40, 1500), (400, 40000))))
+PROPS["C08"]["rule"] += " gauge (schedules): with the kill switch on (dis=1) concurrent callers that succeed, fail and panic: every run function runs, no fallback does, nothing is recorded, each caller gets its own function's outcome; K2: the traces are runs of Conc/Exec."
 PROPS["C08"]["rule"] += " trans (schedules): once SetConfigThreadSafe(ForcedClosed / ForceOpen) has returned, no transition that STARTS afterwards announces Opened / Closed against it."
 PROPS["C11"]["rule"] += " trans (schedules): a transition racing a live change of an override flag (ForceOpen on, ForcedClosed on, overrides off) must behave as under the old or the new setting: never a second Opened for an open circuit, never a Closed for a closed one."
 PROPS["C09"]["rule"] += " trans: 2-4 threads among OpenCircuit / CloseCircuit / failing call (opener says open) / succeeding probe (closer admits and says close) race from a closed or open circuit under the cooperative scheduler; quiescent monitor: alternation and IsOpen = last notification."
